@@ -130,7 +130,7 @@ impl LineServer {
             // circuit breaker: a tree on which (nearly) every case hangs or kills the worker would
             // otherwise take cases x timeout; what has been seen by then is reported, the rest of
             // the batch is left unevaluated (the caller records how many)
-            if self.hangs as u64 * timeout.as_secs().max(1) * 6 >= 600 || self.deaths >= 3000 {
+            if self.hangs as u64 * timeout.as_secs().max(1) * 6 >= 300 || self.deaths >= 3000 {
                 break;
             }
             if self.child.is_none() {
